@@ -209,6 +209,52 @@ def gen_case(rng, n):
     return g.ops
 
 
+def gen_mrp_case(rng, ntests):
+    """a real MemoryReporterPlugin (-pmemoryreport=normal) around scripted test bodies: its pre action makes the three report
+    allocators current, its post action must put back the ones that were current before; blocks are acquired / released
+    through every overload form inside and between tests (a block of one test may go back in a later one or between tests)"""
+    g = Gen(rng)
+    if rng.random() < 0.4:
+        g.setcur()
+    both = rng.random() < 0.5
+    if both:
+        g.ops.append("plugin create"); g.period = "enabled"
+    g.ops.append("mrp create")
+
+    def body(k):
+        for _ in range(k):
+            x = rng.random()
+            if x < 0.4:
+                g.galloc()
+            elif x < 0.75:
+                g.grelease()
+            elif x < 0.85:
+                g.write()
+            elif x < 0.9:
+                g.alloc()
+            elif x < 0.95:
+                g.free()
+            elif x < 0.98:
+                g.typecheck_op()
+            else:
+                g.overloads_op()
+
+    for t in range(ntests):
+        body(rng.randint(0, 3))                  # between two tests: the plain current allocators
+        if both:
+            g.ops.append("plugin pre"); g.period = "checking"
+        g.ops.append("mrp pre")
+        body(rng.randint(0, 8))
+        g.ops.append("mrp post")
+        if both:
+            g.ops.append("plugin post"); g.period = "enabled"
+    body(rng.randint(0, 4))
+    for l in list(g.tracked()):
+        b = g.blocks[l]
+        g.ops.append("free %d %s 0 z.c 1 %d" % (b["alloc"], l, b["sep"]))
+    return g.ops
+
+
 def gen_malformed(rng, n):
     g = Gen(rng)
     g.no_drop = True
@@ -343,6 +389,8 @@ def generate(rng, tier):
         out.append(("gen", gen_case(rng, rng.choice(lens))))
     for _ in range(n // 10):
         out.append(("malformed", gen_malformed(rng, rng.choice([5, 20, 60]))))
+    for _ in range(n // 8):
+        out.append(("mrp", gen_mrp_case(rng, rng.choice([1, 2, 4, 8]))))
     out += sweeps(rng, tier)
     return out
 
